@@ -570,7 +570,27 @@ def r12(ctx):
     ctx.floor(R, 2)
 
 
+def r13(ctx):
+    R = "C05-R13"
+    ctx.rule(R, "a step's start instant replaces the last one: HostTimer::now stores the Instant it is given unconditionally - the slot is not "
+                "always empty when a step begins (a step that returned a host's error never reached HostTimer::tick), and an Instant kept from "
+                "the old runtime freezes elapsed() / since_epoch() for the first step of a bounced host")
+    b = ctx.body(R, "turmoil::host::HostTimer::now")
+    if not b:
+        return
+    lazy = [t for bb, t in b.calls(re.compile(r"Option::(get_or_insert|get_or_insert_with|or|or_else|xor)$"))]
+    stores = [t for bb, t in b.calls(re.compile(r"Option::(replace|insert)$")) if any(a.startswith("arg:2:") for x in t["args"] for a in Slicer(ctx.w).atoms(b, x))]
+    stores += [s2 for bb, i, s2 in b.all_stmts() if i != "term" and s2["r"]["k"] == "agg" and s2["r"].get("variant") == "Some"
+               and any(a.startswith("arg:2:") for o in s2["r"].get("ops", []) for a in Slicer(ctx.w).atoms(b, o))]
+    ok = bool(stores) and not lazy
+    ctx.inst(R, "HostTimer::now:replaces", ok, lazy[0]["s"] if lazy else b.span, "the step's start instant overwrites the previous one" if ok else
+             "HostTimer::now keeps an instant that is already stored: after a step that ended with a host's error (no HostTimer::tick) the next step of that host - bounced in "
+             "between - measures against an Instant of the old runtime and its clocks stand still for a whole step")
+    ctx.floor(R, 1)
+
+
 def run(ctx):
+    r13(ctx)
     r12(ctx)
     from . import C04 as _C04
     _C04.r5(ctx)   # the software factory runs inside the host's paused runtime on first start too: a clock read or a timer created there belongs to virtual time
